@@ -14,7 +14,7 @@ import json
 from . import msel
 from .env import canon, has_absent
 from .harness import HarnessError, Sim
-from .world import SEAMS
+from .world import SEAMS, global_probe_list
 
 
 def _key(d):
@@ -1027,7 +1027,7 @@ class Engine:
         import ptera.probe as pp
 
         self.sim.reach("exit_hook")
-        order = [p for p in pp.global_probes]
+        order = global_probe_list() or []
         try:
             pp._terminate_global_probes()
             res = "ok"
@@ -1049,7 +1049,7 @@ class Engine:
         return [
             {q: [d["original"], d["count"], d["caps"]] for q, d in cs.items()},
             len(self.handlers_ids() or []),
-            len(SEAMS["global_probes"]),
+            len(global_probe_list() or []),
         ]
 
     def handlers_ids(self):
@@ -1325,7 +1325,7 @@ class Engine:
                 {"after": op.get("op"), "expected_handlers": len(exp), "installed": len(got),
                  "active": list(self.order)},
             )
-        gp = SEAMS.get("global_probes")
+        gp = global_probe_list()
         if gp is not None:
             exp_g = sorted(id(self.probes[p].obj) for p in self.order if self.probes[p].obj is not None)
             got_g = sorted(id(x) for x in gp)
